@@ -14,5 +14,9 @@ print("\n".join(log)[-3000:])
 sys.exit(0 if ok else 1)
 PY
 cp /repo/go.sum harness/go.sum
-(cd harness && go1.26.8 test -c -tags verif -o ../build/harness.test .)
+for d in harness/c[0-9][0-9]*; do
+  p=$(basename "$d" | tr a-z A-Z | cut -c1-3)
+  mkdir -p "build/$p"
+  (cd harness && go1.26.8 test -c -tags verif -o "../build/$p/harness.test" "./$(basename "$d")")
+done
 echo setup done
